@@ -419,9 +419,35 @@ def _strip_loops(conds):
     return tuple(c for c in conds if c[0] != "loop")
 
 
+_NT = {}
+
+
+def norm_test(text):
+    """Canonical text of a boolean test: operands of and/or are sorted, so
+    that ``a or b`` and ``b or a`` read the same."""
+    if text in _NT:
+        return _NT[text]
+    out = text
+    try:
+        tree = ast.parse(text, mode="eval").body
+
+        def rec(n):
+            if isinstance(n, ast.BoolOp):
+                vals = sorted((rec(v) for v in n.values), key=ast.unparse)
+                return ast.BoolOp(op=n.op, values=vals)
+            if isinstance(n, ast.UnaryOp) and isinstance(n.op, ast.Not):
+                return ast.UnaryOp(op=n.op, operand=rec(n.operand))
+            return n
+        out = ast.unparse(rec(tree))
+    except SyntaxError:
+        pass
+    _NT[text] = out
+    return out
+
+
 def _norm_conds(conds):
     # "if use_macro or extend_macro" vs "if use_macro" are different tests
-    return tuple(sorted(set(conds)))
+    return tuple(sorted({(k, norm_test(t)) for k, t in conds}))
 
 
 # ---------------------------------------------------------------------------
@@ -459,7 +485,7 @@ def polarity(conds, expr_text):
         if kind not in ("if", "else"):
             continue
         neg, base = _strip_not(test)
-        if base == expr_text:
+        if base == expr_text or norm_test(base) == norm_test(expr_text):
             val = (kind == "if")
             return (not val) if neg else val
     return None
@@ -476,7 +502,7 @@ def cond_signature(conds):
         val = (kind == "if")
         if neg:
             val = not val
-        out.add((base, val))
+        out.add((norm_test(base), val))
     return frozenset(out)
 
 
